@@ -519,6 +519,9 @@ def integer_constant_probe(rep, r, n):
         by, bx = r.randint(8, 20), r.randint(8, 20)
         ny, nx = by * r.randint(2, 3) + r.choice([0, 3]), bx * r.randint(2, 3) + r.choice([0, 5])
         be = r.choice([pb.MeanBackground, pb.MedianBackground, pb.SExtractorBackground])
+        if k == 2:
+            # corpus case (defect F74): the float32 mean of 323 copies of 65535 is 65534.996
+            by, bx, ny, nx, be = 19, 17, 57, 39, pb.MeanBackground
         rp = dict(kind='integer-constant', value=int(cval), dtype=np.dtype(dt).name, shape=[ny, nx], box=[by, bx], bkg=be.__name__)
         rep.case(('intconst', int(cval), np.dtype(dt).name, ny, nx, by, bx, be.__name__), True, kind=f'integer-constant:{np.dtype(dt).name}')
         rep.probe_only += 1
